@@ -6,7 +6,7 @@ from hypothesis import strategies as st
 
 from ECAgent.Core import Model, SystemNotFoundError
 from vf.engine import Violation, InvalidCase
-from vf.fixtures import RecSystem, RecCollector, check, expect_raises, sized_lists
+from vf.fixtures import RecSystem, RecCollector, check, expect_raises, sized_lists, wone_of
 
 PROPERTY = "C01"
 BUDGET = {"quick": 2400, "thorough": 6000}
@@ -26,12 +26,12 @@ PRIOS = [-1, -3, -2, 0, 1, 2, 3, 10 ** 6, -10 ** 6, BIG, -BIG]
 
 
 def _op():
-    prio = st.one_of(st.sampled_from([-1, 0, 1]), st.sampled_from(PRIOS), st.integers(-4, 4))
+    prio = wone_of(st.sampled_from([-1, 0, 1]), st.sampled_from(PRIOS), st.integers(-4, 4))
     add = st.fixed_dictionaries({"op": st.just("add"), "id": st.integers(0, POOL - 1), "prio": prio,
                                  "kind": st.sampled_from(["sys", "sys", "sys", "coll", "colldef"])})
     rem = st.fixed_dictionaries({"op": st.just("remove"), "id": st.integers(0, POOL - 1)})
     step = st.fixed_dictionaries({"op": st.just("step"), "n": st.sampled_from([1, 1, 1, 2, 3])})
-    return st.one_of(add, add, add, rem, step)
+    return wone_of(add, add, add, rem, step)
 
 
 def _perm_case(draw):
@@ -46,7 +46,7 @@ def _perm_case(draw):
 def _bulk_case(draw):
     """a well-populated queue first (distinct ids, tie-heavy priorities), then a random history"""
     n = draw(st.integers(3, POOL))
-    prio = st.one_of(st.integers(-3, 3), st.sampled_from(PRIOS))
+    prio = wone_of(st.integers(-3, 3), st.sampled_from(PRIOS))
     ops = [{"op": "add", "id": i, "prio": draw(prio), "kind": draw(st.sampled_from(["sys", "sys", "coll", "colldef"]))}
            for i in draw(st.permutations(list(range(POOL))))[:n]]
     ops.append({"op": "step", "n": 1})
@@ -55,8 +55,8 @@ def _bulk_case(draw):
 
 
 def strategy(tier):
-    hist = st.builds(lambda ops: {"ops": ops}, st.one_of(st.lists(_op(), min_size=1, max_size=40), sized_lists(_op(), 5, 40)))
-    return st.one_of(hist, hist, st.composite(_bulk_case)(), st.composite(_bulk_case)(), st.composite(_perm_case)())
+    hist = st.builds(lambda ops: {"ops": ops}, wone_of(st.lists(_op(), min_size=1, max_size=40), sized_lists(_op(), 5, 40)))
+    return wone_of(hist, hist, st.composite(_bulk_case)(), st.composite(_bulk_case)(), st.composite(_perm_case)())
 
 
 def exhaustive(tier):
